@@ -135,14 +135,14 @@ theorem map_frame {h h' : H} {l : List Nat} (hf : ∀ i ∈ l, h'.mem i = h.mem 
   List.map_congr_left hf
 
 theorem step_encJson (orc : Orc) (h : H) (ps : PS) (p : Parent) (j : Job) (hi : Inv h) (hr : Rel h ps) :
-    StepOK orc h ps (.encJson p j) := by
+    Inv (stepEncJson Code.real orc h p j) ∧
+    Rel (stepEncJson Code.real orc h p j) { ps with inflight := pureJson p j :: ps.inflight } := by
   obtain ⟨b, hs0, sp0, n0, m0, run⟩ := clone_run orc h p (h.inflight ++ h.live) hi.owns hi.json hi.nofault
   obtain ⟨e, mb⟩ := encodeBody_spec orc p j hs0 sp0 n0 m0
   obtain ⟨hb, o7, fr, js, so, nf⟩ := run _ e
   obtain ⟨o8, mem8, jp8, so8, f8⟩ := owns_putJson _ _ (b :: (h.inflight ++ h.live)) o7
-  obtain ⟨s1, s2, s3, s4, s5, s6, s7, s8⟩ := so.trans so8
-  unfold StepOK
-  simp only [step, encodeJson, real_free, if_true, pstep]
+  obtain ⟨s1, s2, s3, s4, s5, s6, s7, s8, s9⟩ := so.trans so8
+  simp only [stepEncJson, encodeJson, real_free, if_true]
   generalize encodeBody orc (cfgCheck (clone Code.real orc h p) p) p j = sF at *
   simp only [hb, Option.getD_some]
   generalize putJson Code.real sF.h sF.o = h8 at *
@@ -155,10 +155,10 @@ theorem step_encJson (orc : Orc) (h : H) (ps : PS) (p : Parent) (j : Job) (hi : 
       · exact js o ho
     · simp only [s6, s7]
       exact owns_congr rfl rfl o8
-  · obtain ⟨r1, r2, r3, r4⟩ := hr
+  · obtain ⟨r1, r2, r3, r4, r5⟩ := hr
     have frI : ∀ i ∈ h.inflight, h8.mem i = h.mem i := fun i hi' => by rw [mem8]; exact fr i (by simp [hi'])
     have frL : ∀ i ∈ h.live, h8.mem i = h.mem i := fun i hi' => by rw [mem8]; exact fr i (by simp [hi'])
-    refine ⟨?_, ?_, by simp only [s8]; exact r3, view_congr s2 r4⟩
+    refine ⟨?_, ?_, by simp only [s8]; exact r3, view_congr s2 r4, s9.trans r5⟩
     · show List.map h8.mem (b :: h8.inflight) = _
       rw [s6, List.map_cons, map_frame frI, r1, mem8, mb]
     · show List.map h8.mem h8.live = _
@@ -166,16 +166,15 @@ theorem step_encJson (orc : Orc) (h : H) (ps : PS) (p : Parent) (j : Job) (hi : 
 
 
 theorem step_withClone (orc : Orc) (h : H) (ps : PS) (p : Parent) (fields : List RO) (hi : Inv h) (hr : Rel h ps) :
-    StepOK orc h ps (.withClone p fields) := by
+    Inv (stepWith Code.real orc h p fields) ∧ Rel (stepWith Code.real orc h p fields) (pstepWith ps p fields) := by
   obtain ⟨b, hs0, sp0, n0, m0, run⟩ := clone_run orc h p (h.inflight ++ h.live) hi.owns hi.json hi.nofault
   obtain ⟨e, mb, nb⟩ := cloneBody_spec orc p fields hs0 sp0 n0 m0
   obtain ⟨hb, o7, fr, js, so, nf⟩ := run _ e
-  obtain ⟨s1, s2, s3, s4, s5, s6, s7, s8⟩ := so
-  unfold StepOK
-  simp only [step, pstep]
+  obtain ⟨s1, s2, s3, s4, s5, s6, s7, s8, s9⟩ := so
+  simp only [stepWith, pstepWith]
   generalize cloneBody orc (cfgCheck (clone Code.real orc h p) p) p fields = sF at *
   simp only [hb, Option.getD_some]
-  obtain ⟨r1, r2, r3, r4⟩ := hr
+  obtain ⟨r1, r2, r3, r4, r5⟩ := hr
   constructor
   · refine ⟨js, by rw [s1]; exact hi.slice, by rw [s5]; exact hi.stack, ce_congr s2 hi.ce, fun _ _ => trivial,
       fun _ _ => trivial, ?_, nf⟩
@@ -187,22 +186,24 @@ theorem step_withClone (orc : Orc) (h : H) (ps : PS) (p : Parent) (fields : List
       grind
   · have frI : ∀ i ∈ h.inflight, sF.h.mem i = h.mem i := fun i hi' => fr i (by simp [hi'])
     have frL : ∀ i ∈ h.live, sF.h.mem i = h.mem i := fun i hi' => fr i (by simp [hi'])
-    refine ⟨?_, ?_, ?_, view_congr s2 r4⟩
+    refine ⟨?_, ?_, ?_, view_congr s2 r4, ?_⟩
     · show List.map sF.h.mem sF.h.inflight = _
       rw [s6, map_frame frI, r1]
     · show List.map sF.h.mem (b :: sF.h.live) = _
       rw [s7, List.map_cons, map_frame frL, r2, mb]
     · show Out.ctx (sF.h.mem b) sF.o.openNs :: sF.h.out = _
       rw [mb, nb, s8, r3]
+    · show (⟨p.cfg, p.spaced, sF.o.openNs⟩ : LiveMeta) :: sF.h.liveMeta = _
+      rw [nb, s9, r5]
 
 theorem step_deliver (orc : Orc) (h : H) (ps : PS) (i : Nat) (hi : Inv h) (hr : Rel h ps) :
     StepOK orc h ps (.deliver i) := by
-  obtain ⟨r1, r2, r3, r4⟩ := hr
+  obtain ⟨r1, r2, r3, r4, r5⟩ := hr
   unfold StepOK
   simp only [step, pstep, real_free, if_true]
   have hmap : ps.inflight[i]? = (h.inflight[i]?).map h.mem := by rw [← r1]; simp
   cases hb : h.inflight[i]? with
-  | none => simp only [hmap, hb, Option.map_none]; exact ⟨hi, r1, r2, r3, r4⟩
+  | none => simp only [hmap, hb, Option.map_none]; exact ⟨hi, r1, r2, r3, r4, r5⟩
   | some b =>
     simp only [hmap, hb, Option.map_some]
     obtain ⟨l1, l2, e1, e2⟩ := split_at h.inflight i b hb
@@ -213,21 +214,21 @@ theorem step_deliver (orc : Orc) (h : H) (ps : PS) (i : Nat) (hi : Inv h) (hr : 
       have := owns_bufFree h b l1 (l2 ++ h.live) (by simpa using o)
       simp only [bufFree, e2]
       simpa [Owns, bufFree] using this
-    · refine ⟨?_, r2, by simp [bufFree, r3], r4⟩
+    · refine ⟨?_, r2, by simp [bufFree, r3], r4, r5⟩
       show List.map h.mem (h.inflight.eraseIdx i) = ps.inflight.eraseIdx i
       rw [← r1, map_eraseIdx']
 
 theorem step_peek (orc : Orc) (h : H) (ps : PS) (i : Nat) (hi : Inv h) (hr : Rel h ps) :
     StepOK orc h ps (.peek i) := by
-  obtain ⟨r1, r2, r3, r4⟩ := hr
+  obtain ⟨r1, r2, r3, r4, r5⟩ := hr
   unfold StepOK
   simp only [step, pstep]
   have hmap : ps.live[i]? = (h.live[i]?).map h.mem := by rw [← r2]; simp
   cases hb : h.live[i]? with
-  | none => simp only [hmap, hb, Option.map_none]; exact ⟨hi, r1, r2, r3, r4⟩
+  | none => simp only [hmap, hb, Option.map_none]; exact ⟨hi, r1, r2, r3, r4, r5⟩
   | some b =>
     simp only [hmap, hb, Option.map_some]
-    exact ⟨⟨hi.json, hi.slice, hi.stack, hi.ce, hi.errCore, hi.errZap, hi.owns, hi.nofault⟩, r1, r2, by simp [r3], r4⟩
+    exact ⟨⟨hi.json, hi.slice, hi.stack, hi.ce, hi.errCore, hi.errZap, hi.owns, hi.nofault⟩, r1, r2, by simp [r3], r4, r5⟩
 
 
 theorem updCE_same (m : Nat → CEObj) (i : Nat) (v : CEObj) : updCE m i v i = v := by simp [updCE]
@@ -371,7 +372,7 @@ theorem ceHookReturn_spec (e : CEHeap) (i : Nat) (hk : CEOK e) :
 
 theorem step_check (orc : Orc) (h : H) (ps : PS) (ent : Nat) (cores : List Nat) (after errOut : Option Nat) (write : Bool)
     (hi : Inv h) (hr : Rel h ps) : StepOK orc h ps (.check ent cores after errOut write) := by
-  obtain ⟨r1, r2, r3, r4⟩ := hr
+  obtain ⟨r1, r2, r3, r4, r5⟩ := hr
   obtain ⟨c1, c2, c3⟩ := ceCheck_spec (orc h.tick) h.ceh ent cores after errOut write hi.ce
   unfold StepOK
   simp only [step, pstep, checkWrite]
@@ -379,15 +380,15 @@ theorem step_check (orc : Orc) (h : H) (ps : PS) (ent : Nat) (cores : List Nat) 
   refine ⟨⟨hi.json, hi.slice, hi.stack, c1, hi.errCore, hi.errZap, hi.owns, hi.nofault⟩, ?_⟩
   have r4' : ceView h.ceh = ps.inHook := r4
   cases write with
-  | false => exact ⟨r1, r2, by simp [c2, pushOut, r3], by show ceView r.1 = _; rw [c3]; cases after <;> exact r4'⟩
+  | false => exact ⟨r1, r2, by simp [c2, pushOut, r3], by show ceView r.1 = _; rw [c3]; cases after <;> exact r4', r5⟩
   | true =>
     cases after with
-    | none => exact ⟨r1, r2, by simp [c2, pushOut, r3], by show ceView r.1 = _; rw [c3]; exact r4'⟩
-    | some a => exact ⟨r1, r2, by simp [c2, pushOut, r3], by show ceView r.1 = _; rw [c3, r4']; simp⟩
+    | none => exact ⟨r1, r2, by simp [c2, pushOut, r3], by show ceView r.1 = _; rw [c3]; exact r4', r5⟩
+    | some a => exact ⟨r1, r2, by simp [c2, pushOut, r3], by show ceView r.1 = _; rw [c3, r4']; simp, r5⟩
 
 theorem step_hookReturn (orc : Orc) (h : H) (ps : PS) (i : Nat) (hi : Inv h) (hr : Rel h ps) :
     StepOK orc h ps (.hookReturn i) := by
-  obtain ⟨r1, r2, r3, r4⟩ := hr
+  obtain ⟨r1, r2, r3, r4, r5⟩ := hr
   obtain ⟨c1, c2, c3⟩ := ceHookReturn_spec h.ceh i hi.ce
   have r4' : ceView h.ceh = ps.inHook := r4
   unfold StepOK
@@ -398,29 +399,29 @@ theorem step_hookReturn (orc : Orc) (h : H) (ps : PS) (i : Nat) (hi : Inv h) (hr
   cases hv : ps.inHook[i]? with
   | none =>
     rw [hv] at c2
-    refine ⟨r1, r2, by simp [c2, pushOut, r3], ?_⟩
+    refine ⟨r1, r2, by simp [c2, pushOut, r3], ?_, r5⟩
     show ceView r.1 = _
     rw [c3, List.eraseIdx_of_length_le (List.getElem?_eq_none_iff.mp hv)]
   | some v =>
     rw [hv] at c2
-    exact ⟨r1, r2, by simp [c2, pushOut, r3], by show ceView r.1 = _; rw [c3]⟩
+    exact ⟨r1, r2, by simp [c2, pushOut, r3], by show ceView r.1 = _; rw [c3], r5⟩
 
 theorem step_errElem (orc : Orc) (h : H) (ps : PS) (z : Bool) (e : Nat) (hi : Inv h) (hr : Rel h ps) :
     StepOK orc h ps (.errElem z e) := by
-  obtain ⟨r1, r2, r3, r4⟩ := hr
+  obtain ⟨r1, r2, r3, r4, r5⟩ := hr
   unfold StepOK
   simp only [step, pstep, errElem]
   cases z with
   | false =>
     simp only [Bool.false_eq_true, if_false]
-    exact ⟨⟨hi.json, hi.slice, hi.stack, hi.ce, fun _ _ => trivial, hi.errZap, hi.owns, hi.nofault⟩, r1, r2, by simp [r3], r4⟩
+    exact ⟨⟨hi.json, hi.slice, hi.stack, hi.ce, fun _ _ => trivial, hi.errZap, hi.owns, hi.nofault⟩, r1, r2, by simp [r3], r4, r5⟩
   | true =>
     simp only [if_true]
-    exact ⟨⟨hi.json, hi.slice, hi.stack, hi.ce, hi.errCore, fun _ _ => trivial, hi.owns, hi.nofault⟩, r1, r2, by simp [r3], r4⟩
+    exact ⟨⟨hi.json, hi.slice, hi.stack, hi.ce, hi.errCore, fun _ _ => trivial, hi.owns, hi.nofault⟩, r1, r2, by simp [r3], r4, r5⟩
 
 theorem step_capture (orc : Orc) (h : H) (ps : PS) (avail : List Nat) (full : Bool) (hi : Inv h) (hr : Rel h ps) :
     StepOK orc h ps (.capture avail full) := by
-  obtain ⟨r1, r2, r3, r4⟩ := hr
+  obtain ⟨r1, r2, r3, r4, r5⟩ := hr
   have hg := takeAt_fst StackObj.fresh h.stackPool (orc h.tick)
   have hg2 := takeAt_snd StackObj.fresh h.stackPool (orc h.tick)
   have hinv : (takeAt StackObj.fresh h.stackPool (orc h.tick)).1.PutInv := by
@@ -432,7 +433,7 @@ theorem step_capture (orc : Orc) (h : H) (ps : PS) (avail : List Nat) (full : Bo
   simp only [step, pstep, capture]
   generalize takeAt StackObj.fresh h.stackPool (orc h.tick) = g at *
   generalize captureFrom g.1 avail full = r at *
-  refine ⟨⟨hi.json, hi.slice, ?_, hi.ce, hi.errCore, hi.errZap, hi.owns, by simp [hi.nofault, c1]⟩, r1, r2, by simp [c2, r3], r4⟩
+  refine ⟨⟨hi.json, hi.slice, ?_, hi.ce, hi.errCore, hi.errZap, hi.owns, by simp [hi.nofault, c1]⟩, r1, r2, by simp [c2, r3], r4, r5⟩
   intro st hst
   simp only [List.mem_cons] at hst
   rcases hst with rfl | hst
@@ -441,9 +442,9 @@ theorem step_capture (orc : Orc) (h : H) (ps : PS) (avail : List Nat) (full : Bo
 
 theorem step_scratch (orc : Orc) (h : H) (ps : PS) (s : Bytes) (hi : Inv h) (hr : Rel h ps) :
     StepOK orc h ps (.scratch s) := by
-  obtain ⟨r1, r2, r3, r4⟩ := hr
+  obtain ⟨r1, r2, r3, r4, r5⟩ := hr
   obtain ⟨o1, fr, em, rest, fl⟩ := owns_bufGet orc h (h.inflight ++ h.live) hi.owns
-  obtain ⟨j0, s1, s2, s3, s4, s5, s6, s7, s8⟩ := rest
+  obtain ⟨j0, s1, s2, s3, s4, s5, s6, s7, s8, s9⟩ := rest
   unfold StepOK
   simp only [step, pstep, setMem]
   generalize (bufGet orc h).1 = b at *
@@ -463,7 +464,7 @@ theorem step_scratch (orc : Orc) (h : H) (ps : PS) (s : Bytes) (hi : Inv h) (hr 
     have := owns_bufFree h1 b [] (h.inflight ++ h.live) (by simpa using o1)
     simp only [bufFree, s6, s7]
     simpa [Owns, bufFree] using this
-  · refine ⟨?_, ?_, ?_, view_congr s2 r4⟩
+  · refine ⟨?_, ?_, ?_, view_congr s2 r4, s9.trans r5⟩
     · simp only [bufFree, s6]
       rw [← r1]; exact List.map_congr_left fun i hi' => frame i (by simp [hi'])
     · simp only [bufFree, s7]
@@ -476,7 +477,7 @@ theorem step_gc (orc : Orc) (h : H) (ps : PS) (k : Nat → Bool) (hi : Inv h) (h
   simp only [step, pstep]
   refine ⟨⟨fun o ho => hi.json o ((keepIdx_sublist k 0 _).subset ho), fun o ho => hi.slice o ((keepIdx_sublist k 0 _).subset ho),
     fun o ho => hi.stack o ((keepIdx_sublist k 0 _).subset ho), ?_, fun _ _ => trivial, fun _ _ => trivial,
-    owns_sub (keepIdx_sublist k 0 _) rfl hi.owns, hi.nofault⟩, hr.1, hr.2.1, hr.2.2.1, hr.2.2.2⟩
+    owns_sub (keepIdx_sublist k 0 _) rfl hi.owns, hi.nofault⟩, hr.1, hr.2.1, hr.2.2.1, hr.2.2.2.1, hr.2.2.2.2⟩
   obtain ⟨n1, n2⟩ := hi.ce
   refine ⟨List.Nodup.sublist ((keepIdx_sublist k 0 _).append (List.Sublist.refl _)) n1, ?_⟩
   intro x hx
@@ -509,9 +510,10 @@ theorem consoleHead_spec (orc : Orc) (h : H) (j : CJob) (owned : List Nat) (ho :
     (consoleHead Code.real orc h j).2.inflight = h.inflight ∧
     (consoleHead Code.real orc h j).2.live = h.live ∧
     (consoleHead Code.real orc h j).2.out = h.out ∧
-    (consoleHead Code.real orc h j).2.fault = h.fault := by
+    (consoleHead Code.real orc h j).2.fault = h.fault ∧
+    (consoleHead Code.real orc h j).2.liveMeta = h.liveMeta := by
   obtain ⟨o1, fr, em, rest, fl⟩ := owns_bufGet orc h owned ho
-  obtain ⟨j0, s1, s2, s3, s4, s5, s6, s7, s8⟩ := rest
+  obtain ⟨j0, s1, s2, s3, s4, s5, s6, s7, s8, s9⟩ := rest
   have hbo : (bufGet orc h).1 ∉ owned := by
     have := o1.1
     simp only [List.nodup_append, List.nodup_cons] at this
@@ -540,10 +542,10 @@ theorem consoleHead_spec (orc : Orc) (h : H) (j : CJob) (owned : List Nat) (ho :
   cases hm : j.msg with
   | none =>
     simp only [hel, List.nil_append, upd_same]
-    exact ⟨owns_congr rfl rfl o1, trivial, frame _ _ fr, j0, hsl, s2, s3, s4, s5, s6, s7, s8, fl⟩
+    exact ⟨owns_congr rfl rfl o1, trivial, frame _ _ fr, j0, hsl, s2, s3, s4, s5, s6, s7, s8, fl, s9⟩
   | some m =>
     simp only [hel, List.nil_append, upd_same]
-    exact ⟨owns_congr rfl rfl o1, trivial, frame _ _ (frame _ _ fr), j0, hsl, s2, s3, s4, s5, s6, s7, s8, fl⟩
+    exact ⟨owns_congr rfl rfl o1, trivial, frame _ _ (frame _ _ fr), j0, hsl, s2, s3, s4, s5, s6, s7, s8, fl, s9⟩
 
 
 /-- the context object's members with the namespaces it owes closed -/
@@ -654,8 +656,9 @@ theorem pureConsole_eq (p : Parent) (j : CJob) :
   cases j.stack <;> cases j.msg <;> rfl
 
 theorem step_encConsole (orc : Orc) (h : H) (ps : PS) (p : Parent) (j : CJob) (hi : Inv h) (hr : Rel h ps) :
-    StepOK orc h ps (.encConsole p j) := by
-  obtain ⟨a1, a2, a3, a4, a5, a6, a7, a8, a9, a10, a11, a12, a13⟩ :=
+    Inv (stepEncConsole Code.real orc h p j) ∧
+    Rel (stepEncConsole Code.real orc h p j) { ps with inflight := pureConsole p j :: ps.inflight } := by
+  obtain ⟨a1, a2, a3, a4, a5, a6, a7, a8, a9, a10, a11, a12, a13, a14⟩ :=
     consoleHead_spec orc h j (h.inflight ++ h.live) hi.owns hi.slice
   generalize hline : (consoleHead Code.real orc h j).1 = line at *
   generalize hh3 : (consoleHead Code.real orc h j).2 = h3 at *
@@ -663,7 +666,7 @@ theorem step_encConsole (orc : Orc) (h : H) (ps : PS) (p : Parent) (j : CJob) (h
   generalize hh5 : consoleCtx Code.real orc h3 line p j = h5 at *
   obtain ⟨c1, c2, c3, c4, c5, c6, c7⟩ := consoleTail_spec h5 line j
   generalize hhF : consoleTail h5 line j = hF at *
-  obtain ⟨s1, s2, s3, s4, s5, s6, s7, s8⟩ := b5.trans c6
+  obtain ⟨s1, s2, s3, s4, s5, s6, s7, s8, s9⟩ := b5.trans c6
   have hlo : line ∉ h.inflight ++ h.live := by
     have := a1.1
     simp only [List.nodup_append, List.nodup_cons] at this
@@ -674,16 +677,15 @@ theorem step_encConsole (orc : Orc) (h : H) (ps : PS) (p : Parent) (j : CJob) (h
     rw [c2 i this, b3 i hi', a3 i hi']
   have hline' : hF.mem line = pureConsole p j := by
     rw [c1, b2, a2, pureConsole_eq]
-  unfold StepOK
-  simp only [step, encodeConsole, real_free, if_true, pstep, hline, hh3, hh5, hhF]
-  obtain ⟨r1, r2, r3, r4⟩ := hr
+  simp only [stepEncConsole, encodeConsole, real_free, if_true, hline, hh3, hh5, hhF]
+  obtain ⟨r1, r2, r3, r4, r5⟩ := hr
   constructor
   · refine ⟨by rw [c5]; exact b4, by rw [s1]; exact a5, by rw [s5, a9]; exact hi.stack, ce_congr (s2.trans a6) hi.ce,
       fun _ _ => trivial, fun _ _ => trivial, ?_, by rw [c7]; exact b6⟩
     have : Owns hF (line :: (h.inflight ++ h.live)) := owns_congr c3 c4 b1
     simp only [s6, s7, a10, a11]
     exact owns_congr rfl rfl this
-  · refine ⟨?_, ?_, by show hF.out = _; rw [s8, a12, r3], view_congr (s2.trans a6) r4⟩
+  · refine ⟨?_, ?_, by show hF.out = _; rw [s8, a12, r3], view_congr (s2.trans a6) r4, (s9.trans a14).trans r5⟩
     · show List.map hF.mem (line :: hF.inflight) = _
       rw [s6, a10, List.map_cons, hline', map_frame (fun i hi' => frame i (by simp [hi'])), r1]
     · show List.map hF.mem hF.live = _
@@ -691,7 +693,7 @@ theorem step_encConsole (orc : Orc) (h : H) (ps : PS) (p : Parent) (j : CJob) (h
 
 theorem step_ctxPanic (orc : Orc) (h : H) (ps : PS) (p : Parent) (j : CJob) (hi : Inv h) (hr : Rel h ps) :
     StepOK orc h ps (.ctxPanic p j) := by
-  obtain ⟨a1, a2, a3, a4, a5, a6, a7, a8, a9, a10, a11, a12, a13⟩ :=
+  obtain ⟨a1, a2, a3, a4, a5, a6, a7, a8, a9, a10, a11, a12, a13, a14⟩ :=
     consoleHead_spec orc h j (h.inflight ++ h.live) hi.owns hi.slice
   generalize (consoleHead Code.real orc h j).1 = line at *
   generalize hh3 : (consoleHead Code.real orc h j).2 = h3 at *
@@ -700,21 +702,56 @@ theorem step_ctxPanic (orc : Orc) (h : H) (ps : PS) (p : Parent) (j : CJob) (hi 
   unfold StepOK
   simp only [step, pstep, hh3]
   generalize consoleCtxPanic Code.real orc h3 p j.fields = h5 at *
-  obtain ⟨s1, s2, s3, s4, s5, s6, s7, s8⟩ := b5
-  obtain ⟨r1, r2, r3, r4⟩ := hr
+  obtain ⟨s1, s2, s3, s4, s5, s6, s7, s8, s9⟩ := b5
+  obtain ⟨r1, r2, r3, r4, r5⟩ := hr
   constructor
   · refine ⟨b4, by rw [s1]; exact a5, by rw [s5, a9]; exact hi.stack, ce_congr (s2.trans a6) hi.ce, fun _ _ => trivial,
       fun _ _ => trivial, ?_, b6⟩
     simp only [s6, s7, a10, a11]
     exact b1
-  · refine ⟨?_, ?_, by rw [s8, a12, r3], view_congr (s2.trans a6) r4⟩
+  · refine ⟨?_, ?_, by rw [s8, a12, r3], view_congr (s2.trans a6) r4, (s9.trans a14).trans r5⟩
     · rw [s6, a10, map_frame (fun i hi' => (b3 i (by simp [hi'])).trans (a3 i (by simp [hi']))), r1]
     · rw [s7, a11, map_frame (fun i hi' => (b3 i (by simp [hi'])).trans (a3 i (by simp [hi']))), r2]
+
+/-! ### the encoder a core holds -/
+
+theorem liveAt_map {α β} (f : α → β) (l : List α) (k : Nat) : liveAt (l.map f) k = (liveAt l k).map f := by
+  unfold liveAt
+  rw [← List.map_reverse, List.getElem?_map]
+
+theorem liveAt_cons {α} (l : List α) (a v : α) (k : Nat) (h : liveAt l k = some v) : liveAt (a :: l) k = some v := by
+  unfold liveAt at *
+  have hk : k < l.reverse.length := by
+    rcases Nat.lt_or_ge k l.reverse.length with h' | h'
+    · exact h'
+    · rw [List.getElem?_eq_none_iff.mpr h'] at h; cases h
+  rw [List.reverse_cons, List.getElem?_append_left hk]; exact h
+
+/-- under `Rel`, the encoder of the k-th core reads the same in the heap and in the pool-free run -/
+theorem parent_eq {h : H} {ps : PS} (hr : Rel h ps) (k : Nat) : parentAt h k = pparentAt ps k := by
+  obtain ⟨_, r2, _, _, r5⟩ := hr
+  unfold parentAt pparentAt
+  rw [← r2, ← r5, liveAt_map]
+  cases liveAt h.live k <;> cases liveAt h.liveMeta k <;> rfl
+
+theorem real_ctx : Code.real.contextOnClone = true := rfl
 
 theorem step_ok (orc : Orc) (h : H) (ps : PS) (op : Op) (hi : Inv h) (hr : Rel h ps) : StepOK orc h ps op := by
   cases op with
   | encJson p j => exact step_encJson orc h ps p j hi hr
   | encConsole p j => exact step_encConsole orc h ps p j hi hr
+  | encJsonAt k j =>
+    have := step_encJson orc h ps (parentAt h k) j hi hr
+    rw [parent_eq hr k] at this
+    rw [StepOK]; simp only [step, pstep]; rw [parent_eq hr k]; exact this
+  | encConsoleAt k j =>
+    have := step_encConsole orc h ps (parentAt h k) j hi hr
+    rw [StepOK]; simp only [step, pstep, real_ctx, Bool.not_true, Bool.false_and, Bool.false_eq_true, if_false]
+    rw [parent_eq hr k] at this ⊢; exact this
+  | withAt k f =>
+    have := step_withClone orc h ps (parentAt h k) f hi hr
+    rw [StepOK]; simp only [step, pstep]
+    rw [parent_eq hr k] at this ⊢; exact this
   | deliver i => exact step_deliver orc h ps i hi hr
   | withClone p f => exact step_withClone orc h ps p f hi hr
   | peek i => exact step_peek orc h ps i hi hr
@@ -738,191 +775,177 @@ theorem inv_empty : Inv H.empty :=
    by simp [H.empty, Owns], rfl⟩
 
 /-- the pool-free state a heap stands for -/
-def psOf (h : H) : PS := ⟨h.inflight.map h.mem, h.live.map h.mem, ceView h.ceh, h.out⟩
+def psOf (h : H) : PS := ⟨h.inflight.map h.mem, h.live.map h.mem, ceView h.ceh, h.out, h.liveMeta⟩
 
-theorem rel_self (h : H) : Rel h (psOf h) := ⟨rfl, rfl, rfl, rfl⟩
+theorem rel_self (h : H) : Rel h (psOf h) := ⟨rfl, rfl, rfl, rfl, rfl⟩
 
-theorem rel_empty : Rel H.empty PS.empty := ⟨rfl, rfl, rfl, rfl⟩
+theorem rel_empty : Rel H.empty PS.empty := ⟨rfl, rfl, rfl, rfl, rfl⟩
 
 
 /-! ### a Write in flight while other operations run -/
 
-theorem prun_nested : ∀ (mid : List Op) (d : Nat) (pre : List Bytes) (x : Bytes) (rest : List Bytes) (l : List Bytes)
-    (k : List (Nat × Option Nat)) (o : List Out),
-    pre.length = d → nested d mid = true →
-    ∃ l' k' o', prun ⟨pre ++ x :: rest, l, k, o⟩ mid = ⟨x :: rest, l', k', o'⟩
-  | [], d, pre, x, rest, l, k, o, hd, hn => by
+theorem pstep_inflight (s : PS) (op : Op) : (pstep s op).inflight =
+    (match op with
+     | .encJson p j => pureJson p j :: s.inflight
+     | .encConsole p j => pureConsole p j :: s.inflight
+     | .encJsonAt k j => pureJson (pparentAt s k) j :: s.inflight
+     | .encConsoleAt k j => pureConsole (pparentAt s k) j :: s.inflight
+     | .deliver i => (match s.inflight[i]? with | some _ => s.inflight.eraseIdx i | none => s.inflight)
+     | _ => s.inflight) := by
+  cases op with
+  | deliver i => simp only [pstep]; cases s.inflight[i]? <;> rfl
+  | peek i => simp only [pstep]; cases s.live[i]? <;> rfl
+  | check e c a eo w => simp only [pstep]; cases w <;> cases a <;> rfl
+  | hookReturn i => simp only [pstep]; cases s.inHook[i]? <;> rfl
+  | _ => rfl
+
+theorem pstep_inHook (s : PS) (op : Op) : (pstep s op).inHook =
+    (match op with
+     | .check e _ (some a) _ true => (e, some a) :: s.inHook
+     | .hookReturn i => (match s.inHook[i]? with | some _ => s.inHook.eraseIdx i | none => s.inHook)
+     | _ => s.inHook) := by
+  cases op with
+  | deliver i => simp only [pstep]; cases s.inflight[i]? <;> rfl
+  | peek i => simp only [pstep]; cases s.live[i]? <;> rfl
+  | check e c a eo w => simp only [pstep]; cases w <;> cases a <;> rfl
+  | hookReturn i => simp only [pstep]; cases s.inHook[i]? <;> rfl
+  | _ => rfl
+
+theorem erase_prefix {α} (pre : List α) (x : α) (rest : List α) (i : Nat) (hi : i < pre.length) :
+    (pre ++ x :: rest)[i]? = some pre[i] ∧ (pre ++ x :: rest).eraseIdx i = pre.eraseIdx i ++ x :: rest ∧
+    (pre.eraseIdx i).length = pre.length - 1 := by
+  refine ⟨by rw [List.getElem?_append_left hi]; simp, List.eraseIdx_append_of_lt_length hi _, ?_⟩
+  rw [List.length_eraseIdx]; simp [hi]
+
+/-- a Write in flight stays where it is while `nested` operations run -/
+theorem prun_nested : ∀ (mid : List Op) (d : Nat) (s : PS) (pre : List Bytes) (x : Bytes) (rest : List Bytes),
+    s.inflight = pre ++ x :: rest → pre.length = d → nested d mid = true → (prun s mid).inflight = x :: rest
+  | [], d, s, pre, x, rest, hs, hd, hn => by
     simp only [nested, beq_iff_eq] at hn
     subst hn
     have : pre = [] := List.length_eq_zero_iff.mp hd
     subst this
-    exact ⟨l, k, o, rfl⟩
-  | .encJson p j :: r, d, pre, x, rest, l, k, o, hd, hn => by
-    simp only [nested] at hn
-    obtain ⟨l', k', o', e⟩ := prun_nested r (d + 1) (pureJson p j :: pre) x rest l k o (by simp [hd]) hn
-    exact ⟨l', k', o', by simpa [prun, pstep] using e⟩
-  | .encConsole p j :: r, d, pre, x, rest, l, k, o, hd, hn => by
-    simp only [nested] at hn
-    obtain ⟨l', k', o', e⟩ := prun_nested r (d + 1) (pureConsole p j :: pre) x rest l k o (by simp [hd]) hn
-    exact ⟨l', k', o', by simpa [prun, pstep] using e⟩
-  | .deliver i :: r, d, pre, x, rest, l, k, o, hd, hn => by
-    simp only [nested, Bool.and_eq_true, decide_eq_true_eq] at hn
-    obtain ⟨hi, hn⟩ := hn
-    have hlt : i < pre.length := by omega
-    have hget : (pre ++ x :: rest)[i]? = some pre[i] := by
-      rw [List.getElem?_append_left hlt]; simp
-    obtain ⟨l', k', o', e⟩ := prun_nested r (d - 1) (pre.eraseIdx i) x rest l k (Out.line pre[i] :: o)
-      (by rw [List.length_eraseIdx]; simp [hlt]; omega) hn
-    refine ⟨l', k', o', ?_⟩
-    simp only [prun, List.foldl_cons, pstep, hget]
-    rw [List.eraseIdx_append_of_lt_length hlt]
-    exact e
-  | .withClone p f :: r, d, pre, x, rest, l, k, o, hd, hn => by
-    simp only [nested] at hn
-    obtain ⟨l', k', o', e⟩ := prun_nested r d pre x rest _ k _ hd hn
-    exact ⟨l', k', o', by simpa [prun, pstep] using e⟩
-  | .peek i :: r, d, pre, x, rest, l, k, o, hd, hn => by
-    simp only [nested] at hn
-    cases hl : l[i]? with
-    | none =>
-      obtain ⟨l', k', o', e⟩ := prun_nested r d pre x rest l k o hd hn
-      exact ⟨l', k', o', by simpa [prun, pstep, hl] using e⟩
-    | some v =>
-      obtain ⟨l', k', o', e⟩ := prun_nested r d pre x rest l k (Out.line v :: o) hd hn
-      exact ⟨l', k', o', by simpa [prun, pstep, hl] using e⟩
-  | .check en c a eo w :: r, d, pre, x, rest, l, k, o, hd, hn => by
-    simp only [nested] at hn
-    cases w with
-    | false =>
-      obtain ⟨l', k', o', e⟩ := prun_nested r d pre x rest l k o hd hn
-      exact ⟨l', k', o', by simpa [prun, pstep] using e⟩
-    | true =>
-      cases a with
-      | none =>
-        obtain ⟨l', k', o', e⟩ := prun_nested r d pre x rest l k _ hd hn
-        exact ⟨l', k', o', by simpa [prun, pstep] using e⟩
-      | some a =>
-        obtain ⟨l', k', o', e⟩ := prun_nested r d pre x rest l ((en, some a) :: k) _ hd hn
-        exact ⟨l', k', o', by simpa [prun, pstep] using e⟩
-  | .hookReturn i :: r, d, pre, x, rest, l, k, o, hd, hn => by
-    simp only [nested] at hn
-    cases hk : k[i]? with
-    | none =>
-      obtain ⟨l', k', o', e⟩ := prun_nested r d pre x rest l k o hd hn
-      exact ⟨l', k', o', by simpa [prun, pstep, hk] using e⟩
-    | some v =>
-      obtain ⟨l', k', o', e⟩ := prun_nested r d pre x rest l (k.eraseIdx i) (Out.hook v.1 v.2 :: o) hd hn
-      exact ⟨l', k', o', by simpa [prun, pstep, hk] using e⟩
-  | .errElem z en :: r, d, pre, x, rest, l, k, o, hd, hn => by
-    simp only [nested] at hn
-    obtain ⟨l', k', o', e⟩ := prun_nested r d pre x rest l k _ hd hn
-    exact ⟨l', k', o', by simpa [prun, pstep] using e⟩
-  | .capture a f :: r, d, pre, x, rest, l, k, o, hd, hn => by
-    simp only [nested] at hn
-    obtain ⟨l', k', o', e⟩ := prun_nested r d pre x rest l k _ hd hn
-    exact ⟨l', k', o', by simpa [prun, pstep] using e⟩
-  | .scratch b :: r, d, pre, x, rest, l, k, o, hd, hn => by
-    simp only [nested] at hn
-    obtain ⟨l', k', o', e⟩ := prun_nested r d pre x rest l k _ hd hn
-    exact ⟨l', k', o', by simpa [prun, pstep] using e⟩
-  | .ctxPanic p j :: r, d, pre, x, rest, l, k, o, hd, hn => by
-    simp only [nested] at hn
-    obtain ⟨l', k', o', e⟩ := prun_nested r d pre x rest l k o hd hn
-    exact ⟨l', k', o', by simpa [prun, pstep] using e⟩
-  | .gc g :: r, d, pre, x, rest, l, k, o, hd, hn => by
-    simp only [nested] at hn
-    obtain ⟨l', k', o', e⟩ := prun_nested r d pre x rest l k o hd hn
-    exact ⟨l', k', o', by simpa [prun, pstep] using e⟩
+    simpa [prun] using hs
+  | op :: r, d, s, pre, x, rest, hs, hd, hn => by
+    have hi := pstep_inflight s op
+    show (prun (pstep s op) r).inflight = x :: rest
+    cases op with
+    | encJson p j => exact prun_nested r (d + 1) _ (_ :: pre) x rest (by rw [hi, hs]; rfl) (by simp [hd]) (by simpa [nested] using hn)
+    | encConsole p j => exact prun_nested r (d + 1) _ (_ :: pre) x rest (by rw [hi, hs]; rfl) (by simp [hd]) (by simpa [nested] using hn)
+    | encJsonAt k j => exact prun_nested r (d + 1) _ (_ :: pre) x rest (by rw [hi, hs]; rfl) (by simp [hd]) (by simpa [nested] using hn)
+    | encConsoleAt k j => exact prun_nested r (d + 1) _ (_ :: pre) x rest (by rw [hi, hs]; rfl) (by simp [hd]) (by simpa [nested] using hn)
+    | deliver i =>
+      simp only [nested, Bool.and_eq_true, decide_eq_true_eq] at hn
+      obtain ⟨e1, e2, e3⟩ := erase_prefix pre x rest i (by omega)
+      exact prun_nested r (d - 1) _ (pre.eraseIdx i) x rest (by rw [hi]; simp only [hs, e1, e2]) (by omega) hn.2
+    | withClone p f => exact prun_nested r d _ pre x rest (by rw [hi, hs]) hd (by simpa [nested] using hn)
+    | withAt k f => exact prun_nested r d _ pre x rest (by rw [hi, hs]) hd (by simpa [nested] using hn)
+    | peek i => exact prun_nested r d _ pre x rest (by rw [hi, hs]) hd (by simpa [nested] using hn)
+    | check e c a eo w => exact prun_nested r d _ pre x rest (by rw [hi, hs]) hd (by simpa [nested] using hn)
+    | hookReturn i => exact prun_nested r d _ pre x rest (by rw [hi, hs]) hd (by simpa [nested] using hn)
+    | errElem z e => exact prun_nested r d _ pre x rest (by rw [hi, hs]) hd (by simpa [nested] using hn)
+    | capture a f => exact prun_nested r d _ pre x rest (by rw [hi, hs]) hd (by simpa [nested] using hn)
+    | scratch b => exact prun_nested r d _ pre x rest (by rw [hi, hs]) hd (by simpa [nested] using hn)
+    | ctxPanic p j => exact prun_nested r d _ pre x rest (by rw [hi, hs]) hd (by simpa [nested] using hn)
+    | gc g => exact prun_nested r d _ pre x rest (by rw [hi, hs]) hd (by simpa [nested] using hn)
 
-theorem prun_hnested : ∀ (mid : List Op) (d : Nat) (pre : List (Nat × Option Nat)) (v : Nat × Option Nat)
-    (rest : List (Nat × Option Nat)) (f l : List Bytes) (o : List Out),
-    pre.length = d → hnested d mid = true →
-    ∃ f' l' o', prun ⟨f, l, pre ++ v :: rest, o⟩ mid = ⟨f', l', v :: rest, o'⟩
-  | [], d, pre, v, rest, f, l, o, hd, hn => by
+/-- a running hook's entry stays where it is while `hnested` operations run -/
+theorem prun_hnested : ∀ (mid : List Op) (d : Nat) (s : PS) (pre : List (Nat × Option Nat)) (v : Nat × Option Nat)
+    (rest : List (Nat × Option Nat)),
+    s.inHook = pre ++ v :: rest → pre.length = d → hnested d mid = true → (prun s mid).inHook = v :: rest
+  | [], d, s, pre, v, rest, hs, hd, hn => by
     simp only [hnested, beq_iff_eq] at hn
     subst hn
     have : pre = [] := List.length_eq_zero_iff.mp hd
     subst this
-    exact ⟨f, l, o, rfl⟩
-  | .check en c (some a) eo true :: r, d, pre, v, rest, f, l, o, hd, hn => by
-    simp only [hnested] at hn
-    obtain ⟨f', l', o', e⟩ := prun_hnested r (d + 1) ((en, some a) :: pre) v rest f l _ (by simp [hd]) hn
-    exact ⟨f', l', o', by simpa [prun, pstep] using e⟩
-  | .check en c none eo true :: r, d, pre, v, rest, f, l, o, hd, hn => by
-    simp only [hnested] at hn
-    obtain ⟨f', l', o', e⟩ := prun_hnested r d pre v rest f l _ hd hn
-    exact ⟨f', l', o', by simpa [prun, pstep] using e⟩
-  | .check en c a eo false :: r, d, pre, v, rest, f, l, o, hd, hn => by
-    have hn' : hnested d r = true := by cases a <;> simpa [hnested] using hn
-    obtain ⟨f', l', o', e⟩ := prun_hnested r d pre v rest f l o hd hn'
-    exact ⟨f', l', o', by simpa [prun, pstep] using e⟩
-  | .hookReturn i :: r, d, pre, v, rest, f, l, o, hd, hn => by
-    simp only [hnested, Bool.and_eq_true, decide_eq_true_eq] at hn
-    obtain ⟨hi, hn⟩ := hn
-    have hlt : i < pre.length := by omega
-    have hget : (pre ++ v :: rest)[i]? = some pre[i] := by
-      rw [List.getElem?_append_left hlt]; simp
-    obtain ⟨f', l', o', e⟩ := prun_hnested r (d - 1) (pre.eraseIdx i) v rest f l (Out.hook pre[i].1 pre[i].2 :: o)
-      (by rw [List.length_eraseIdx]; simp [hlt]; omega) hn
-    refine ⟨f', l', o', ?_⟩
-    simp only [prun, List.foldl_cons, pstep, hget]
-    rw [List.eraseIdx_append_of_lt_length hlt]
-    exact e
-  | .encJson p j :: r, d, pre, v, rest, f, l, o, hd, hn => by
-    simp only [hnested] at hn
-    obtain ⟨f', l', o', e⟩ := prun_hnested r d pre v rest _ l o hd hn
-    exact ⟨f', l', o', by simpa [prun, pstep] using e⟩
-  | .encConsole p j :: r, d, pre, v, rest, f, l, o, hd, hn => by
-    simp only [hnested] at hn
-    obtain ⟨f', l', o', e⟩ := prun_hnested r d pre v rest _ l o hd hn
-    exact ⟨f', l', o', by simpa [prun, pstep] using e⟩
-  | .deliver i :: r, d, pre, v, rest, f, l, o, hd, hn => by
-    simp only [hnested] at hn
-    cases hf : f[i]? with
-    | none =>
-      obtain ⟨f', l', o', e⟩ := prun_hnested r d pre v rest f l o hd hn
-      exact ⟨f', l', o', by simpa [prun, pstep, hf] using e⟩
-    | some b =>
-      obtain ⟨f', l', o', e⟩ := prun_hnested r d pre v rest (f.eraseIdx i) l (Out.line b :: o) hd hn
-      exact ⟨f', l', o', by simpa [prun, pstep, hf] using e⟩
-  | .withClone p fs :: r, d, pre, v, rest, f, l, o, hd, hn => by
-    simp only [hnested] at hn
-    obtain ⟨f', l', o', e⟩ := prun_hnested r d pre v rest f _ _ hd hn
-    exact ⟨f', l', o', by simpa [prun, pstep] using e⟩
-  | .peek i :: r, d, pre, v, rest, f, l, o, hd, hn => by
-    simp only [hnested] at hn
-    cases hl : l[i]? with
-    | none =>
-      obtain ⟨f', l', o', e⟩ := prun_hnested r d pre v rest f l o hd hn
-      exact ⟨f', l', o', by simpa [prun, pstep, hl] using e⟩
-    | some b =>
-      obtain ⟨f', l', o', e⟩ := prun_hnested r d pre v rest f l (Out.line b :: o) hd hn
-      exact ⟨f', l', o', by simpa [prun, pstep, hl] using e⟩
-  | .errElem z en :: r, d, pre, v, rest, f, l, o, hd, hn => by
-    simp only [hnested] at hn
-    obtain ⟨f', l', o', e⟩ := prun_hnested r d pre v rest f l _ hd hn
-    exact ⟨f', l', o', by simpa [prun, pstep] using e⟩
-  | .capture a fl :: r, d, pre, v, rest, f, l, o, hd, hn => by
-    simp only [hnested] at hn
-    obtain ⟨f', l', o', e⟩ := prun_hnested r d pre v rest f l _ hd hn
-    exact ⟨f', l', o', by simpa [prun, pstep] using e⟩
-  | .scratch b :: r, d, pre, v, rest, f, l, o, hd, hn => by
-    simp only [hnested] at hn
-    obtain ⟨f', l', o', e⟩ := prun_hnested r d pre v rest f l _ hd hn
-    exact ⟨f', l', o', by simpa [prun, pstep] using e⟩
-  | .ctxPanic p j :: r, d, pre, v, rest, f, l, o, hd, hn => by
-    simp only [hnested] at hn
-    obtain ⟨f', l', o', e⟩ := prun_hnested r d pre v rest f l o hd hn
-    exact ⟨f', l', o', by simpa [prun, pstep] using e⟩
-  | .gc g :: r, d, pre, v, rest, f, l, o, hd, hn => by
-    simp only [hnested] at hn
-    obtain ⟨f', l', o', e⟩ := prun_hnested r d pre v rest f l o hd hn
-    exact ⟨f', l', o', by simpa [prun, pstep] using e⟩
+    simpa [prun] using hs
+  | op :: r, d, s, pre, v, rest, hs, hd, hn => by
+    have hi := pstep_inHook s op
+    show (prun (pstep s op) r).inHook = v :: rest
+    cases op with
+    | check e c a eo w =>
+      cases w with
+      | false => exact prun_hnested r d _ pre v rest (by rw [hi]; cases a <;> exact hs) hd (by cases a <;> simpa [hnested] using hn)
+      | true =>
+        cases a with
+        | none => exact prun_hnested r d _ pre v rest (by rw [hi, hs]) hd (by simpa [hnested] using hn)
+        | some a => exact prun_hnested r (d + 1) _ (_ :: pre) v rest (by rw [hi, hs]; rfl) (by simp [hd]) (by simpa [hnested] using hn)
+    | hookReturn i =>
+      simp only [hnested, Bool.and_eq_true, decide_eq_true_eq] at hn
+      obtain ⟨e1, e2, e3⟩ := erase_prefix pre v rest i (by omega)
+      exact prun_hnested r (d - 1) _ (pre.eraseIdx i) v rest (by rw [hi]; simp only [hs, e1, e2]) (by omega) hn.2
+    | encJson p j => exact prun_hnested r d _ pre v rest (by rw [hi, hs]) hd (by simpa [hnested] using hn)
+    | encConsole p j => exact prun_hnested r d _ pre v rest (by rw [hi, hs]) hd (by simpa [hnested] using hn)
+    | encJsonAt k j => exact prun_hnested r d _ pre v rest (by rw [hi, hs]) hd (by simpa [hnested] using hn)
+    | encConsoleAt k j => exact prun_hnested r d _ pre v rest (by rw [hi, hs]) hd (by simpa [hnested] using hn)
+    | deliver i => exact prun_hnested r d _ pre v rest (by rw [hi, hs]) hd (by simpa [hnested] using hn)
+    | withClone p f => exact prun_hnested r d _ pre v rest (by rw [hi, hs]) hd (by simpa [hnested] using hn)
+    | withAt k f => exact prun_hnested r d _ pre v rest (by rw [hi, hs]) hd (by simpa [hnested] using hn)
+    | peek i => exact prun_hnested r d _ pre v rest (by rw [hi, hs]) hd (by simpa [hnested] using hn)
+    | errElem z e => exact prun_hnested r d _ pre v rest (by rw [hi, hs]) hd (by simpa [hnested] using hn)
+    | capture a f => exact prun_hnested r d _ pre v rest (by rw [hi, hs]) hd (by simpa [hnested] using hn)
+    | scratch b => exact prun_hnested r d _ pre v rest (by rw [hi, hs]) hd (by simpa [hnested] using hn)
+    | ctxPanic p j => exact prun_hnested r d _ pre v rest (by rw [hi, hs]) hd (by simpa [hnested] using hn)
+    | gc g => exact prun_hnested r d _ pre v rest (by rw [hi, hs]) hd (by simpa [hnested] using hn)
+
+/-- the pool-free run never changes an existing core's encoder: it only adds new ones -/
+theorem pstep_live_stable (s : PS) (op : Op) (k : Nat) : ∀ b m, liveAt s.live k = some b → liveAt s.liveMeta k = some m →
+    liveAt (pstep s op).live k = some b ∧ liveAt (pstep s op).liveMeta k = some m := by
+  intro b m hb hm
+  cases op with
+  | withClone p f => exact ⟨liveAt_cons _ _ _ _ hb, liveAt_cons _ _ _ _ hm⟩
+  | withAt k' f => exact ⟨liveAt_cons _ _ _ _ hb, liveAt_cons _ _ _ _ hm⟩
+  | deliver i => simp only [pstep]; cases s.inflight[i]? <;> exact ⟨hb, hm⟩
+  | peek i => simp only [pstep]; cases s.live[i]? <;> exact ⟨hb, hm⟩
+  | check e c a eo w => simp only [pstep]; cases w <;> cases a <;> exact ⟨hb, hm⟩
+  | hookReturn i => simp only [pstep]; cases s.inHook[i]? <;> exact ⟨hb, hm⟩
+  | _ => exact ⟨hb, hm⟩
+
+theorem prun_live_stable : ∀ (ops : List Op) (s : PS) (k : Nat) (b : Bytes) (m : LiveMeta),
+    liveAt s.live k = some b → liveAt s.liveMeta k = some m →
+    liveAt (prun s ops).live k = some b ∧ liveAt (prun s ops).liveMeta k = some m
+  | [], _, _, _, _, hb, hm => ⟨hb, hm⟩
+  | op :: r, s, k, b, m, hb, hm => by
+    obtain ⟨h1, h2⟩ := pstep_live_stable s op k b m hb hm
+    exact prun_live_stable r (pstep s op) k b m h1 h2
 
 theorem prun_append (s : PS) (a b : List Op) : prun s (a ++ b) = prun (prun s a) b := by
   simp [prun, List.foldl_append]
 
 theorem putJson_mem (c : Code) (h : H) (o : JsonObj) : (putJson c h o).mem = h.mem := by
   unfold putJson; cases o.reflectBuf <;> rfl
+
+
+theorem liveAt_new {α} (l : List α) (a : α) : liveAt (a :: l) l.length = some a := by
+  unfold liveAt
+  rw [List.reverse_cons, List.getElem?_append_right (by simp)]
+  simp
+
+theorem pstep_len (s : PS) (op : Op) (h : s.live.length = s.liveMeta.length) :
+    (pstep s op).live.length = (pstep s op).liveMeta.length := by
+  cases op with
+  | withClone p f => simp [pstep, pstepWith, h]
+  | withAt k f => simp [pstep, pstepWith, h]
+  | deliver i => simp only [pstep]; cases s.inflight[i]? <;> exact h
+  | peek i => simp only [pstep]; cases s.live[i]? <;> exact h
+  | check e c a eo w => simp only [pstep]; cases w <;> cases a <;> exact h
+  | hookReturn i => simp only [pstep]; cases s.inHook[i]? <;> exact h
+  | _ => exact h
+
+theorem prun_len : ∀ (ops : List Op) (s : PS), s.live.length = s.liveMeta.length →
+    (prun s ops).live.length = (prun s ops).liveMeta.length
+  | [], _, h => h
+  | op :: r, s, h => prun_len r (pstep s op) (pstep_len s op h)
+
+/-- the encoder of a core made by `With` reads, at any later time, exactly as it was made -/
+theorem pparent_after (s0 : PS) (hl : s0.live.length = s0.liveMeta.length) (p : Parent) (fields : List RO) (mid : List Op) :
+    pparentAt (prun (pstepWith s0 p fields) mid) s0.live.length =
+      ⟨p.cfg, p.spaced, (pureCtx p fields).buf, (pureCtx p fields).openNs⟩ := by
+  have h1 : liveAt (pstepWith s0 p fields).live s0.live.length = some (pureCtx p fields).buf := liveAt_new _ _
+  have h2 : liveAt (pstepWith s0 p fields).liveMeta s0.live.length = some ⟨p.cfg, p.spaced, (pureCtx p fields).openNs⟩ := by
+    rw [hl]; exact liveAt_new _ _
+  obtain ⟨a, b⟩ := prun_live_stable mid _ _ _ _ h1 h2
+  unfold pparentAt
+  rw [a, b]
 
 end ZapVerif.Pools
